@@ -22,6 +22,9 @@ class Spec:
             "pending, else prefixes, single omissions and seeded subsets; the WAL file present or deleted when its unlink is "
             "not yet synced); each image is opened by the current code, integrity-checked, fully dumped and appended to; the "
             "recovered state must be the model's state after N or N+1 requests, N = requests acknowledged before the point; "
+            "every file below the data directory (and renames) is part of the images; in addition data directories written "
+            "by the pinned release are opened by the current code under the same trace, and every image of that FIRST open "
+            "must serve the recorded content; "
             "non-trivial = crash point strictly inside a request")
 
 
@@ -410,10 +413,106 @@ def run_c04(tier, seed, replay=None):
                                     "first_events": [str(e[:3])[:80] for e in ev[:8]]})
             for k_ in reqs:
                 out.dist[k_.split()[0]] = out.dist.get(k_.split()[0], 0) + 1
+        # ---- a data directory written by the pinned release, opened by the current code for the first
+        # time: every write the open itself issues (schema set-up, any one-time conversion) is a crash
+        # point too; whatever the image, the next start must serve the recorded content
+        fixture_startup_images(binp, tier, seed, rng, out, problems, kinds, work)
     finally:
         shutil.rmtree(work, ignore_errors=True)
     return finish(spec, tier, seed, proof, out, problems, None, t0, nh,
                   extra_cov={"images_by_kind": kinds, "fault_model": "process crash at every logged file-system operation; power loss = last-synced content + subsets of later writes"})
+
+
+def fixture_startup_images(binp, tier, seed, rng, out, problems, kinds, work):
+    from .props_fix import FIX, parse_trace, last_dump_block
+    names = sorted(n for n in os.listdir(FIX) if os.path.isdir(os.path.join(FIX, n, "data"))) if os.path.isdir(FIX) else []
+    if tier != "thorough":
+        names = [n for n in names if n in ("hist1", "wal-committed", "hist3")]
+    for name in names:
+        fd = os.path.join(FIX, name)
+        hd = os.path.join(work, "fx-" + name)
+        datadir = os.path.join(hd, "data")
+        os.makedirs(hd)
+        shutil.copytree(os.path.join(fd, "data"), datadir)
+        want = last_dump_block(parse_trace(open(os.path.join(fd, "expected.trace")).read()))
+        sym = [f"case fx-{name}", f"loadstate {fd}/ids.txt", "dumpall", "reopen", "dumpall", "end"]
+        p = subprocess.run(["strace", "-f", "-xx", "-s", "400000000", "-e",
+                            "trace=openat,close,pwrite64,write,fsync,fdatasync,ftruncate,unlink,unlinkat,rename,renameat,renameat2,clone,clone3",
+                            "-o", os.path.join(hd, "strace.log"), binp, "lib", "sqlite"],
+                           input="\n".join(sym) + "\n", capture_output=True, text=True,
+                           env=dict(ENV, TSS_KEEP_DIR=datadir, VERIF_SEED=str(seed)), timeout=1200)
+        if p.returncode != 0:
+            problems.append((Case(f"fx-{name}", sym, {"fixture": name}),
+                             [("oracle", f"the current code could not open the fixture `{name}` under trace: {p.stderr[-300:]}", "sqlite", None)], {"sqlite": []}))
+            continue
+        ev = parse_strace(os.path.join(hd, "strace.log"), datadir)
+        # the images start from the fixture's files (they were not created under the trace)
+        base = {}
+        for root, _, fs in os.walk(os.path.join(fd, "data")):
+            for f in fs:
+                rel = os.path.relpath(os.path.join(root, f), os.path.join(fd, "data"))
+                base[rel] = open(os.path.join(root, f), "rb").read()
+        ev = [("create", f) for f in base] + [("write", f, 0, b) for f, b in base.items()] + [("sync", f) for f in base] + ev
+        nbase = 3 * len(base)
+        imgs, seen = [], set()
+        for (pt, kind, files) in images(ev, rng, tier):
+            if pt < nbase:
+                continue
+            key = hash(tuple(sorted((f, hash(b)) for f, b in files.items())))
+            if key in seen:
+                continue
+            seen.add(key)
+            d = os.path.join(hd, f"img{len(imgs)}")
+            os.makedirs(d)
+            for f, b in files.items():
+                os.makedirs(os.path.dirname(os.path.join(d, f)) or d, exist_ok=True)
+                open(os.path.join(d, f), "wb").write(b)
+            imgs.append({"dir": d, "point": pt - nbase, "kind": kind,
+                         "event": (ev[pt][0] + ":" + str(ev[pt][1])) if pt < len(ev) else "end"})
+            kinds[kind] += 1
+        def batch(chunk):
+            lines = []
+            for im in chunk:
+                lines += [f"case {os.path.basename(im['dir'])}", f"usedir {im['dir']}", f"loadstate {fd}/ids.txt", "integrity", "dumpall", "end"]
+            q = subprocess.run([binp, "lib", "sqlite"], input="\n".join(lines) + "\n", capture_output=True, text=True,
+                               env=dict(ENV, VERIF_SEED=str(seed)), timeout=3000)
+            return q.stdout
+        rec, cur = {}, None
+        chunks = [imgs[k::NCPU] for k in range(NCPU) if imgs[k::NCPU]]
+        with cf.ThreadPoolExecutor(max_workers=NCPU) as ex:
+            for so in ex.map(batch, chunks):
+                for line in so.split("\n"):
+                    if line.startswith("# case "):
+                        cur = line[7:].strip(); rec[cur] = []
+                    elif line.startswith("OP ") and cur:
+                        rec[cur].append([line[3:], None])
+                    elif line.startswith("R ") and cur and rec[cur]:
+                        rec[cur][-1][1] = line[2:]
+        for im in imgs:
+            n = os.path.basename(im["dir"])
+            r = rec.get(n) or []
+            out.evaluations += 1
+            where = f"fixture `{name}` (written by the pinned release) while the current code opens it, {im['kind']}-loss image before event {im['point']} ({im['event']})"
+            msgs = []
+            if any(rr == "OPEN-FAILED" for o, rr in r) or not r:
+                msgs.append(f"the database does not open after the crash: {where}")
+            integ = [rr for o, rr in r if o == "integrity"]
+            if integ and integ[0] != "integrity ok":
+                msgs.append(f"integrity check says `{integ[0]}`: {where}")
+            got = [(o, rr) for o, rr in r if o.startswith("dump ")][:len(want)]
+            for (ow, rw), (og, rg) in zip(want, got):
+                cw, cg = Dump(rw), Dump(rg or "")
+                if not cg.ok or cw.key(False) != cg.key(False, cw.by_id.keys()):
+                    msgs.append(f"the recorded content is not served after the crash: pinned `{rw[:140]}` / now `{(rg or '')[:140]}`: {where}")
+                    break
+            if r and len(got) < len(want) and not msgs:
+                msgs.append(f"fewer clients served ({len(got)}) than recorded ({len(want)}): {where}")
+            if msgs:
+                problems.append((Case(f"fx-{name}-{n}", sym, {"fixture": name, "image": im["point"], "kind": im["kind"]}),
+                                 [("oracle", m, "sqlite", None) for m in msgs], {"sqlite": [(o, rr or "", "") for o, rr in r]}))
+            else:
+                out.validated += 1
+                out.distinct.add("fx" + name + n)
 
 
 ALL = {"C04": run_c04}
